@@ -2,5 +2,6 @@
 pub mod bridge;
 pub mod engine;
 pub mod gen;
+pub mod hist;
 pub mod model;
 pub mod props;
